@@ -238,7 +238,10 @@ def to_indict(rng, T, style=None, order=None, with_params=None, options=None, pa
         if e["order"] == 1 and rng.random() < 0.7:
             d["initial_value"] = e["iv"][0]
         else:
-            d["initial_values"] = {e["name"] + "'" * k: e["iv"][k] for k in range(e["order"])}
+            ks = list(range(e["order"]))
+            if len(ks) > 1 and rng.random() < 0.5:
+                rng.shuffle(ks)        # the order in which the initial values are written is not significant
+            d["initial_values"] = {e["name"] + "'" * k: e["iv"][k] for k in ks}
         dyn.append(d)
     if order is not None:
         dyn = [dyn[i] for i in order]
